@@ -94,6 +94,18 @@ CLAIMED = {
             'bisect_left / sorted by assumed contracts; netCDF and cache models and the value layer as in C07; _reindex and the '
             'merged index units bound the table sizes (3 rows / 2 entries per part)',
             'contract-based deductive verification: AST->z3 VCs of the real source, representation invariant', 'DESIGN 2 C08'),
+    'C10': ('proof',
+            'Exceptional postconditions: for every way add can raise (other field sets, inconsistent identifier use, missing '
+            'required value, file-backed and in-memory) length, rows, next index and cache are as before. merge is executed over '
+            'a ghost file system in which every file-system call is a step: an OSError is injected at each step in turn and every '
+            'validation rule is exercised; at each exit every input is readable from its original path or the merged directory, '
+            'metadata.json is present only if the directory is complete, and running merge again succeeds; the same two '
+            'invariants are checked on the on-disk state before every step of a fault-free merge (crash without handlers).',
+            'ghost file system / netCDF / JSON models (one fault per run, rollback steps themselves do not fail); '
+            'TrajectoryStore.open inside merge by contract; value layer (_write_data may extend the row before it raises) by '
+            'contract from C03; two inputs per merge',
+            'contract-based deductive verification: exceptional postconditions over ghost state, fault at every step',
+            'DESIGN 2 C10'),
 }
 REASONS_TODO = 'check not built yet (work in progress; see DESIGN.md section 2)'
 
